@@ -1,7 +1,7 @@
 (* C11 — property theorems.  Nothing but statements, `exact`, Print Assumptions.
    `reach g` : g is reachable from the initial state by ANY sequence of labels, i.e. under every
    interleaving of the accept loop, the handlers, Shutdown, Close, clients, origin and context. *)
-From G11 Require Import Shutdown ShutdownCheck ShutdownProofs ShutdownAccepts ShutdownTrace ShutdownRun ShutdownProgress ShutdownObligations.
+From G11 Require Import Shutdown Gauge ShutdownCheck ShutdownProofs ShutdownAccepts ShutdownTrace ShutdownRun ShutdownTermination ShutdownProgress ShutdownObligations.
 Open Scope Z_scope.
 
 (* Shutdown decides "drained" (and then returns nil) only in a state where the counter is zero and
@@ -81,6 +81,22 @@ Theorem T11_counter_balanced : forall g,
 Proof. exact counter_balanced. Qed.
 Print Assumptions T11_counter_balanced.
 
+(* The exported gauge of open connections (listener_cx_active; forwarder.Listener + conntrack, not the
+   martian counter): after ANY sequence of accepts (successful or not) and Close calls on the tracked
+   connections - repeated, in any order, whatever each underlying Close returned (every Close after the
+   first returns net.ErrClosed) - the gauge is not negative, and once Close has been called at least
+   once on every connection accepted so far it reads zero.  Second part: the model can express the
+   defect (onClose skipped when the underlying Close reports an error leaves the gauge at 1 for ever). *)
+Theorem T11_gauge_returns_to_zero :
+  (forall evs closes,
+     let s := grun gpar_of_tables evs gs0 in
+     (forall k, (k < length (g_once s))%nat -> In k (map fst closes)) ->
+     0 <= g_val s /\
+     g_val (grun gpar_of_tables (map (fun ke => GClose (fst ke) (snd ke)) closes) s) = 0) /\
+  g_val (grun (mkgpar 1 1 true negb) [GAcc true; GClose 0%nat true; GClose 0%nat true; GClose 0%nat true] gs0) = 1.
+Proof. exact (conj (gauge_returns_to_zero gpar_of_tables ob_gauge_programs) gauge_leak_witness). Qed.
+Print Assumptions T11_gauge_returns_to_zero.
+
 (* Progress: the LTS has no deadlock.  From EVERY reachable state there is a continuation, in which the
    environment withholds nothing (the context may expire, clients go away, origins answer), that
    releases connsMu and takes every handler to its end; then the counter is zero and the registry
@@ -92,6 +108,21 @@ Theorem T11_no_deadlock : forall g,
     (forall i c, getc g' i = Some c -> pc c = CDone) /\ cnt g' = 0 /\ regs g' = [] /\ mu g' = None.
 Proof. exact no_deadlock. Qed.
 Print Assumptions T11_no_deadlock.
+
+(* The other half of "the count always returns to zero": once closing is set no handler can run for
+   ever.  Along EVERY continuation (any interleaving, any behaviour of clients, origins, Shutdown, Close)
+   at most one more connection is accepted and the handlers together take at most (sum of their ranks) + 41
+   <= 41 x (connections + 1) further steps: every step of a handler lowers its rank, nothing raises one.
+   With T11_no_deadlock (a handler that is not at its end can always be given a step): every run in
+   which enabled handlers eventually move ends with all handlers done and the counter at zero. *)
+Theorem T11_handlers_terminate : forall g,
+  reach g -> closing g = true ->
+  forall ls g', runf g ls = Some g' ->
+    count is_acc ls <= 1 /\
+    count handler_step ls <= total (conns g) + max_rank /\
+    count handler_step ls <= max_rank * (Z.of_nat (length (conns g)) + 1).
+Proof. exact handlers_terminate. Qed.
+Print Assumptions T11_handlers_terminate.
 
 (* ... and the drain itself can always succeed: from every reachable state in which Shutdown is
    polling (holding connsMu), every registered handler can run up to its decrement without the lock,
@@ -168,3 +199,21 @@ Example T11_example_run_returns :
               TSdOut false; SdRet false; ClCall; TClLock; SockCloseC 0%nat; TClOut; ClRet])
   = Some (SdDone false, ClDone, [true], [true]).
 Proof. reflexivity. Qed.
+
+(* the measure at work: a connection waiting for its next request when closing is set has rank 24; the run
+   that takes it to its end (read fails, close, decrement, delete) has 4 handler steps and ends at rank 10 *)
+Example T11_example_rank :
+  option_map (fun g => (map ShutdownTermination.rank (conns g), closing g))
+    (runf g0 [TSvChk; Acc 0%nat; TRegister 0%nat; Addr 0%nat; TChkConn 0%nat; SdCall; TSdLock]) = Some ([24], true) /\
+  option_map (fun g => map ShutdownTermination.rank (conns g))
+    (runf g0 [TSvChk; Acc 0%nat; TRegister 0%nat; Addr 0%nat; TChkConn 0%nat; SdCall; TSdLock;
+              ReqRead 0%nat RErr; SockClose 0%nat; TDec 0%nat; TSdOut true; TDelete 0%nat]) = Some [10] /\
+  count handler_step [ReqRead 0%nat RErr; SockClose 0%nat; TDec 0%nat; TSdOut true; TDelete 0%nat] = 4.
+Proof. exact (conj eq_refl (conj eq_refl eq_refl)). Qed.
+
+(* the gauge model at work: three accepts (one failed), the handler and Proxy.Close both close connection 0
+   (the second call fails with ErrClosed), connection 1 still open: the gauge reads 1 *)
+Example T11_example_gauge :
+  g_val (grun gpar_of_tables [GAcc true; GAcc false; GAcc true; GClose 0%nat false; GClose 0%nat true] gs0) = 1 /\
+  g_val (grun gpar_of_tables [GAcc true; GAcc false; GAcc true; GClose 0%nat false; GClose 0%nat true; GClose 1%nat true] gs0) = 0.
+Proof. exact (conj eq_refl eq_refl). Qed.
